@@ -703,13 +703,8 @@ def install(I):
             inner = Ref(inner.cell, (), True)
         return I.ret(st, inner)
 
-    @M(r'^<(.*) as (std::future::)?IntoFuture>::into_future$|^<(.*) as IntoIterator>::into_iter$', 'IntoFuture/IntoIterator identity')
+    @M(r'^<(.*) as (std::future::)?IntoFuture>::into_future$', 'IntoFuture identity')
     def m_into_future(I, st, f, args, fr):
-        h = I.hooks.get('into_iter')
-        if h and f.endswith('into_iter'):
-            r = h(I, st, f, args)
-            if r is not None:
-                return r
         return I.ret(st, args[0])
 
     @M(r'^<.* as AsRef<str>>::as_ref$|^<.* as Borrow<str>>::borrow$|^<.* as AsRef<\[u8\]>>::as_ref$', 'AsRef<str>::as_ref (identity on string values)')
